@@ -114,7 +114,7 @@ func main() {
 			continue
 		}
 		xrun.Explore(r, name, xrun.Opts{Kind: "once", Bound: bound, Budget: 30, Recycle: 4,
-			Param: loopworld.Cfg{Native: native, OnlyOnce: true, LoadFaults: true, MaxVisits: 1, AppOps: []string{"put-b"}}})
+			Param: loopworld.Cfg{Native: native, OnlyOnce: true, LoadFaults: true, LoopFirst: true, MaxVisits: 1, AppOps: []string{"put-b"}}})
 	}
 	r.Finish()
 }
